@@ -225,12 +225,111 @@ theorem exchange_correct (go : GroupOracle h F G) (sid bits : Bytes) (tA rO tb :
     rw [hrecv]
     refine ⟨(List.range Generated.LAMBDA_C).map (fun idx => if extractBit bits idx = 0 then (si idx).rho.1 else (si idx).rho.2), ?_, ?_, ?_, ?_⟩
     · rw [if_neg (by simp)]
-      simp
+      simp only [List.map_map]
+      rfl
     · simp
     · simp
     · intro idx hidx
       refine ⟨_, (si idx).rho, ?_, ?_, rfl⟩
       · simp [hidx]
       · simp [hidx]
+
+end SlVerif.Endemic
+
+namespace SlVerif.Endemic
+open SlVerif
+
+variable (h : Query → Bytes)
+variable {F G : Type} [Field F] [AddCommGroup G] [Module F G]
+
+/-! ### what both sides compute in one instance when the receiver ran under `sidR` and the sender under `sidS` -/
+
+/-- the receiver's Diffie–Hellman point -/
+def ptRecv (tA tbc : Nat) : Bytes := h (.ecMul K1 (h (.ecMulGen K1 tbc)) tA)
+/-- the sender's point behind the key for the receiver's choice bit -/
+def ptChosen (sidR sidS : Bytes) (idx bit tA rO tbc : Nat) : Bytes :=
+  h (.ecMul K1 (h (.ecAdd K1 (rChoiceOf h sidR idx bit tA rO) (Hf h bit idx sidS (rOtherOf h rO)))) tbc)
+/-- the sender's point behind the other key -/
+def ptOther (sidR sidS : Bytes) (idx bit tA rO tbo : Nat) : Bytes :=
+  h (.ecMul K1 (h (.ecAdd K1 (rOtherOf h rO) (Hf h (1 - bit) idx sidS (rChoiceOf h sidR idx bit tA rO)))) tbo)
+
+theorem inst_shape (go : GroupOracle h F G) (sidR sidS : Bytes) (idx bit tA rO tb0 tb1 : Nat) (hb : bit ≤ 1) :
+    (sendInst (m := Id) h sidS idx (recvInst (m := Id) h sidR idx bit tA rO) tb0 tb1).err = false ∧
+    recvProcInst (m := Id) h idx bit tA (sendInst (m := Id) h sidS idx (recvInst (m := Id) h sidR idx bit tA rO) tb0 tb1).mb
+      = (false, H2 h idx (ptRecv h tA (if bit = 0 then tb0 else tb1))) ∧
+    (if bit = 0 then (sendInst (m := Id) h sidS idx (recvInst (m := Id) h sidR idx bit tA rO) tb0 tb1).rho.1
+      else (sendInst (m := Id) h sidS idx (recvInst (m := Id) h sidR idx bit tA rO) tb0 tb1).rho.2)
+      = H2 h idx (ptChosen h sidR sidS idx bit tA rO (if bit = 0 then tb0 else tb1)) ∧
+    (if bit = 0 then (sendInst (m := Id) h sidS idx (recvInst (m := Id) h sidR idx bit tA rO) tb0 tb1).rho.2
+      else (sendInst (m := Id) h sidS idx (recvInst (m := Id) h sidR idx bit tA rO) tb0 tb1).rho.1)
+      = H2 h idx (ptOther h sidR sidS idx bit tA rO (if bit = 0 then tb1 else tb0)) := by
+  have hro : decodePoint (m := Id) h (rOtherOf h rO) = (true, rOtherOf h rO) := decode_computed h go _ (by trivial)
+  have hrc : decodePoint (m := Id) h (rChoiceOf h sidR idx bit tA rO) = (true, rChoiceOf h sidR idx bit tA rO) :=
+    decode_computed h go _ (by trivial)
+  have hb' : bit = 0 ∨ bit = 1 := by omega
+  rcases hb' with rfl | rfl
+  · rw [recvInst_id, if_pos rfl, sendInst_id, recvProcInst_id]
+    simp only [hro, hrc, if_true, Bool.and_self, Bool.not_true, true_and]
+    rw [decode_computed h go _ (by trivial)]
+    exact ⟨rfl, rfl, rfl⟩
+  · rw [recvInst_id, if_neg (by decide), sendInst_id, recvProcInst_id]
+    simp only [hro, hrc, Bool.and_self, Bool.not_true, true_and, if_neg (show ¬ (1 = 0) by decide)]
+    rw [decode_computed h go _ (by trivial)]
+    exact ⟨rfl, rfl, rfl⟩
+
+theorem dec_ptRecv (go : GroupOracle h F G) (tA tbc : Nat) :
+    go.dec (ptRecv h tA tbc) = ((tA : F) * (tbc : F)) • go.gen := by
+  unfold ptRecv; rw [go.mul, go.mulGen, smul_smul]
+
+theorem dec_ptChosen (go : GroupOracle h F G) (sidR sidS : Bytes) (idx bit tA rO tbc : Nat) :
+    go.dec (ptChosen h sidR sidS idx bit tA rO tbc) =
+      ((tA : F) * (tbc : F)) • go.gen +
+        (tbc : F) • (go.dec (Hf h bit idx sidS (rOtherOf h rO)) - go.dec (Hf h bit idx sidR (rOtherOf h rO))) := by
+  unfold ptChosen
+  rw [go.mul, go.add, dec_rChoice h go, mul_comm, ← smul_smul, ← smul_add]
+  congr 1
+  abel
+
+theorem dec_ptOther (go : GroupOracle h F G) (sidR sidS : Bytes) (idx bit tA rO tbo : Nat) :
+    go.dec (ptOther h sidR sidS idx bit tA rO tbo) =
+      (tbo : F) • ((rO : F) • go.gen + go.dec (Hf h (1 - bit) idx sidS (rChoiceOf h sidR idx bit tA rO))) := by
+  unfold ptOther rOtherOf
+  rw [go.mul, go.add, go.mulGen]
+
+/-- a non-zero scalar does not kill a non-zero element (vector spaces are torsion free) -/
+theorem smul_ne_zero_of {t : F} {x : G} (ht : t ≠ 0) (hx : x ≠ 0) : t • x ≠ 0 := by
+  intro e
+  apply hx
+  have := congrArg (fun y => t⁻¹ • y) e
+  simpa [smul_smul, inv_mul_cancel₀ ht] using this
+
+/-- **chosen key, different hash values**: when the two `h_function` values (receiver's and sender's) are different
+    points and the sender's scalar is non-zero, the sender's "chosen" point is not the receiver's point -/
+theorem ptChosen_ne (go : GroupOracle h F G) (sidR sidS : Bytes) (idx bit tA rO tbc : Nat)
+    (ht : (tbc : F) ≠ 0)
+    (hH : go.dec (Hf h bit idx sidS (rOtherOf h rO)) ≠ go.dec (Hf h bit idx sidR (rOtherOf h rO))) :
+    ptChosen h sidR sidS idx bit tA rO tbc ≠ ptRecv h tA tbc := by
+  intro e
+  have := congrArg go.dec e
+  rw [dec_ptChosen h go, dec_ptRecv h go] at this
+  have hz : (tbc : F) • (go.dec (Hf h bit idx sidS (rOtherOf h rO)) - go.dec (Hf h bit idx sidR (rOtherOf h rO))) = 0 := by
+    simpa using this
+  exact smul_ne_zero_of ht (sub_ne_zero.mpr hH) hz
+
+/-- **other key**: the sender's other point is the receiver's point only if the hash-to-curve value
+    `h_function(1-bit, idx, sid, r_choice)` happens to be the ONE point `(t_b'⁻¹ t_a t_b − r_o)·G` -/
+theorem ptOther_ne (go : GroupOracle h F G) (sidR sidS : Bytes) (idx bit tA rO tbc tbo : Nat)
+    (ht : (tbo : F) ≠ 0)
+    (hgap : go.dec (Hf h (1 - bit) idx sidS (rChoiceOf h sidR idx bit tA rO))
+      ≠ ((tbo : F)⁻¹ * ((tA : F) * (tbc : F)) - (rO : F)) • go.gen) :
+    ptOther h sidR sidS idx bit tA rO tbo ≠ ptRecv h tA tbc := by
+  intro e
+  have := congrArg go.dec e
+  rw [dec_ptOther h go, dec_ptRecv h go] at this
+  apply hgap
+  have h2 := congrArg (fun y => (tbo : F)⁻¹ • y) this
+  simp only [smul_smul, inv_mul_cancel₀ ht, one_smul] at h2
+  rw [sub_smul, ← h2]
+  abel
 
 end SlVerif.Endemic
